@@ -107,6 +107,11 @@ func PickProposer(r *replica.Replica) int {
 			return k
 		}
 	}
+	for k := 0; k <= NEW2; k++ { // any other actor that is online (e.g. a pool whose owner is a plain account)
+		if vc.IsOnlineIdentity(A(k)) {
+			return k
+		}
+	}
 	// god-only mode: the god address of the *state* proposes (it may have been handed over)
 	god := r.App.State.GodAddress()
 	for k := 0; k <= NEW2; k++ {
@@ -206,6 +211,39 @@ func (b *B) ExactFee(s Spec) *big.Int {
 	return b.FeeOf(tx)
 }
 
+// TightMaxFee returns the smallest fee ceiling with which the tx described by s (amount = balance - ceiling
+// + delta when wholeBalance is set) passes both the pool's pricing (minimal network rate) and the block's
+// (state rate); nonce bookkeeping untouched. The fee depends on the encoded size, hence the fixed point.
+func (b *B) TightMaxFee(s Spec, wholeBalance bool, delta int64) (*big.Int, *big.Int) {
+	save := map[int]uint32{}
+	for k, v := range b.next {
+		save[k] = v
+	}
+	defer func() { b.next = save }()
+	ns := b.R.App.ValidatorsCache.NetworkSize()
+	m := replica.Dna(1)
+	amt := s.Amount
+	for i := 0; i < 4; i++ {
+		if wholeBalance {
+			amt = new(big.Int).Add(sub(b.Bal(s.From), m), big.NewInt(delta))
+			if amt.Sign() < 0 {
+				amt = big.NewInt(0)
+			}
+		}
+		s.Amount, s.MaxFee = amt, m
+		tx := b.Tx(s)
+		f := b.FeeOf(tx)
+		if mf := fee.CalculateFee(ns, fee.GetFeePerGasForNetwork(ns), tx); mf.Cmp(f) > 0 {
+			f = mf
+		}
+		if f.Cmp(m) == 0 {
+			break
+		}
+		m = f
+	}
+	return m, amt
+}
+
 func Online(on bool) []byte { return attachments.CreateOnlineStatusAttachment(on) }
 
 func PubKeyOf(i int) []byte { return crypto.FromECDSAPub(&replica.Key(i).PublicKey) }
@@ -249,3 +287,42 @@ func (b *B) Contract(i int) *common.Address {
 
 // SetNext makes the next transaction built for `from` use nonce n (and count up from there).
 func (b *B) SetNext(from int, n uint32) { b.next[from] = n }
+
+// WithNonce returns tx re-signed by its sender (one of the fixed actor keys) with the account
+// nonce shifted by d; nil if the sender is not an actor.
+func WithNonce(tx *types.Transaction, d int) *types.Transaction {
+	if tx == nil {
+		return nil
+	}
+	sender, _ := types.Sender(tx)
+	for k := 0; k <= NEW2; k++ {
+		if A(k) == sender {
+			cp := &types.Transaction{AccountNonce: uint32(int(tx.AccountNonce) + d), Epoch: tx.Epoch, Type: tx.Type, To: tx.To, Amount: tx.Amount, MaxFee: tx.MaxFee, Tips: tx.Tips, Payload: tx.Payload}
+			signed, err := types.SignTx(cp, replica.Key(k))
+			if err != nil {
+				panic(err)
+			}
+			return signed
+		}
+	}
+	return nil
+}
+
+// WithTips returns tx re-signed by its sender (one of the fixed actor keys) carrying the given tips.
+func WithTips(tx *types.Transaction, tips *big.Int) *types.Transaction {
+	if tx == nil {
+		return nil
+	}
+	sender, _ := types.Sender(tx)
+	for k := 0; k <= NEW2; k++ {
+		if A(k) == sender {
+			cp := &types.Transaction{AccountNonce: tx.AccountNonce, Epoch: tx.Epoch, Type: tx.Type, To: tx.To, Amount: tx.Amount, MaxFee: tx.MaxFee, Tips: tips, Payload: tx.Payload}
+			signed, err := types.SignTx(cp, replica.Key(k))
+			if err != nil {
+				panic(err)
+			}
+			return signed
+		}
+	}
+	return nil
+}
